@@ -38,7 +38,15 @@ func String(str string, t reflect.Type) (reflect.Value, error) {
 			if parseErr != nil {
 				return reflect.Value{}, fmt.Errorf("parse error of item %d %q: %s", idx, strVal, parseErr)
 			}
-			castSlice = reflect.Append(castSlice, castVal.Elem())
+			// scalars come back as pointers to the predeclared type
+			elemVal := castVal
+			if elemVal.Kind() == reflect.Ptr {
+				elemVal = elemVal.Elem()
+			}
+			if !elemVal.Type().ConvertibleTo(t.Elem()) {
+				return reflect.Value{}, fmt.Errorf("item %d: type %s is not convertible to %s", idx, elemVal.Type(), t.Elem())
+			}
+			castSlice = reflect.Append(castSlice, elemVal.Convert(t.Elem()))
 		}
 		return castSlice, nil
 
